@@ -75,7 +75,8 @@ deriving DecidableEq, Repr
 
 structure Face where
   id : Nat
-  uri : String
+  uri : String          -- remote URI (canonical text)
+  luri : String         -- local URI
   rscheme : String
   lscheme : String
   isLocal : Bool       -- transport scope: Local / NonLocal (no transport is created with Unknown)
@@ -105,6 +106,7 @@ structure St where
   vCs : Nat := 0
   vFaces : Nat := 0
   vStatus : Nat := 0
+  nextFace : Nat := 8       -- face.FaceTable.nextFaceID (relative to the history's first face)
 deriving Repr
 
 /-- decoded ControlParameters (`mgmt.ControlArgs`) -/
@@ -127,10 +129,31 @@ structure Args where
   mtu : Option Nat := none
 deriving DecidableEq, Repr
 
-/-- result of `decodeControlParameters` on component 4 of the name -/
+/-- decoded `FaceQueryFilter` (faces/query) -/
+structure Filter where
+  faceId : Option Nat := none
+  scheme : Option Bytes := none
+  uri : Option Bytes := none
+  luri : Option Bytes := none
+  scope : Option Nat := none
+  pers : Option Nat := none
+  linkType : Option Nat := none
+deriving DecidableEq, Repr
+
+/-- application parameters of a rib/announce Interest -/
+inductive AppKind
+  | data       -- a well-formed Data packet (prefix announcement object)
+  | garbage    -- bytes that are not a Data packet
+  | missing    -- a parameters-digest component but no application parameters
+deriving DecidableEq, Repr
+
+/-- what component 4 of the name decodes to (ControlParameters for the commands, a
+    FaceQueryFilter for faces/query), or the application parameters for rib/announce -/
 inductive Params
-  | undecodable              -- parse error or no ControlParameters element: returns nil
+  | undecodable              -- parse error or no ControlParameters / filter element: nil
   | args (a : Args)
+  | filter (q : Filter)
+  | app (k : AppKind)
 deriving DecidableEq, Repr
 
 inductive Dataset
@@ -140,6 +163,7 @@ inductive Dataset
   | cs (capacity : Nat) (flags : Nat) (n : Nat)
   | status (nfib : Nat)
   | faces (fs : List Face)
+  | query (q : Filter) (fs : List Face)
 deriving Repr
 
 inductive Resp
@@ -152,7 +176,6 @@ deriving Repr
 /-- oracle for the parts of the tables C17 does not own (see header) -/
 structure Ext where
   fibAfter : Fib
-  ribAfter : Rib
 
 /-! ### Tables (fw/table as used by management) -/
 
@@ -246,4 +269,71 @@ def applyFlags (f : Face) (flags mask : Nat) : Face :=
 
 /-- `NDNLPLinkServiceOptions.Flags()` -/
 def faceFlags (f : Face) : Nat := (if f.localFields then 1 else 0) + (if f.congMark then 4 else 0)
+/-- `RibTable.CleanUpFace`: every route of the face goes, entries left without routes disappear -/
+def ribCleanFace (rib : Rib) (f : Nat) : Rib :=
+  (rib.map fun e => (e.1, e.2.filter fun r => r.face != f)).filter fun e => !e.2.isEmpty
+
+def strBytes (s : String) : Bytes := s.toList.map (·.toNat)
+
+/-- what fw/defn/uri.go + face.go create make of a remote URI string -/
+inductive UriClass
+  | udp (canon : String)     -- canonical unicast UDP URI to a loopback address
+  | tcp (canon : String)     -- canonical TCP URI to a loopback listener
+  | late                     -- canonisable, refused later (unsupported scheme, not unicast, port 0)
+  | early                    -- not decodable / not canonisable
+deriving DecidableEq, Repr
+
+/-- the finite set of URI strings the generator uses, classified by running the real code
+    (DecodeURIString + Canonize + the checks of `create`); any other string: not modelled -/
+def uriTable : List (String × UriClass) :=
+  [ ("udp4://127.0.0.1:7101", .udp "udp4://127.0.0.1:7101"), ("udp4://127.0.0.1:7102", .udp "udp4://127.0.0.1:7102"),
+    ("udp://127.0.0.1:7101", .udp "udp4://127.0.0.1:7101"), ("udp4://127.0.0.1:07102", .udp "udp4://127.0.0.1:7102"),
+    ("udp4://127.0.0.2:7101", .udp "udp4://127.0.0.2:7101"),
+    ("udp4://127.0.0.1:7001", .udp "udp4://127.0.0.1:7001"), ("udp4://127.0.0.1:7002", .udp "udp4://127.0.0.1:7002"),
+    ("tcp4://127.0.0.1:{T1}", .tcp "tcp4://127.0.0.1:{T1}"), ("tcp://127.0.0.1:{T2}", .tcp "tcp4://127.0.0.1:{T2}"),
+    ("udp4://224.0.0.1:6363", .late), ("udp4://255.255.255.255:6363", .late), ("udp4://0.0.0.0:6363", .late),
+    ("unix:///tmp/verif-c17.sock", .late), ("dev://eth0", .late), ("fd://3", .late), ("udp4://127.0.0.1:0", .late),
+    ("internal://", .early), ("null://", .early), ("ether://[08:00:27:01:01:01]", .early), ("", .early), ("bogus", .early),
+    ("udp4://", .early), ("udp4://127.0.0.1", .early), ("UDP4://127.0.0.1:7101", .early), ("wsclient://127.0.0.1:1", .early) ]
+
+def uriClass (u : Bytes) : Option UriClass := (uriTable.find? fun e => strBytes e.1 == u).map (·.2)
+
+/-- local URI of a face made by faces/create (the harness configures unicast UDP port 46363; the
+    local URI of an outgoing TCP face is set asynchronously and is masked) -/
+def createdLocalUri (c : UriClass) : String :=
+  match c with | .tcp _ => "tcp-local" | _ => "udp4://127.0.0.1:46363"
+
+def maxPacket : Nat := 8800
+
+/-- `fillFaceProperties` (create: 200 and the 409 "conflicts with existing face") -/
+def faceFullProps (f : Face) : Args :=
+  { faceId := some f.id, uri := some (strBytes f.uri), localUri := some (strBytes f.luri), pers := some f.pers,
+    mtu := some f.mtu, flags := some (if f.ndnlp then faceFlags f else 0),
+    bcmi := if f.ndnlp then some f.bcmi else none, dct := if f.ndnlp then some f.dct else none }
+
+/-- the face faces/create makes: persistency (default persistent), MTU (capped), flags under the
+    mask; the congestion parameters are only taken when Flags is present -/
+def newFace (id : Nat) (c : UriClass) (canon : String) (a : Args) : Face :=
+  let base : Face :=
+    { id := id, uri := canon, luri := createdLocalUri c,
+      rscheme := (match c with | .tcp _ => "tcp4" | _ => "udp4"), lscheme := (match c with | .tcp _ => "tcp4" | _ => "udp4"),
+      isLocal := true, pers := a.pers.getD 0,
+      mtu := (match a.mtu with | some m => (if m > maxPacket then maxPacket else m) | none => maxPacket),
+      ndnlp := true, localFields := false, congMark := false,
+      bcmi := (if a.flags.isSome then a.bcmi.getD 100000000 else 100000000),
+      dct := (if a.flags.isSome then a.dct.getD 65536 else 65536) }
+  match a.flags, a.mask with | some fl, some mk => applyFlags base fl mk | _, _ => base
+
+def createPersOk (pers : Option Nat) : Bool := match pers with | some p => p == 0 || p == 2 | none => true
+
+/-- does a face pass the FaceQueryFilter? (LinkType of every face here is point-to-point = 0) -/
+def filterMatch (q : Filter) (f : Face) : Bool :=
+  (match q.faceId with | some x => x == f.id | none => true) &&
+  (match q.scheme with | some x => x == strBytes f.lscheme || x == strBytes f.rscheme | none => true) &&
+  (match q.uri with | some x => x == strBytes f.uri | none => true) &&
+  (match q.luri with | some x => x == strBytes f.luri | none => true) &&
+  (match q.scope with | some x => x == (if f.isLocal then 1 else 0) | none => true) &&
+  (match q.pers with | some x => x == f.pers | none => true) &&
+  (match q.linkType with | some x => x == 0 | none => true)
+
 end Ndn.C17
